@@ -260,7 +260,7 @@ P('C13', claimed=True, level='other',
               'pass draws the step once, yields the current value, next = current (+|*) step, quiet end on '
               'exhaustion); Pseq (one repetition = items from offset to the end, then the items before it, each '
               'embedded once with the threaded input value) and Pser (pass i embeds lst[(i + offset) mod size]); '
-              'Pn (same pattern every pass); Plen (one draw per pass, exactly that value yielded, quiet end); '
+              'Pn (same pattern every pass; with a key: the event is marked before it goes down and unmarked at the end); Plen (one draw per pass, exactly that value yielded, quiet end); '
               'Pconst (running sum grows by exactly the yielded value, last value = total - running sum in both '
               'endings; telescoping lemma: the values add up to the total); Pstutter (one value and one count '
               'per outer pass, a copy of that value per inner pass); Pcollect (func(value, input) yielded), '
@@ -367,13 +367,21 @@ P('C18', claimed=True, level='other',
               'template filter (enough arguments and every template item accepts: None anything, a callable by its '
               'truth value, else equality; quantified loop invariant) - each fires exactly once with the four '
               'values unchanged iff its condition holds - and the exact-address dispatcher (every function '
-              'registered for the address once, in order; nobody for an unknown address). Pattern matching is '
+              'registered for the address once, in order; nobody for an unknown address), the pattern dispatcher '
+              '(EVERY registered address is matched against the incoming pattern in this very call, and its functions '
+              'fire - each once, in order, unchanged values - iff the matcher says yes: nested loop invariants plus '
+              '"loop not left early"), the registry operations add / remove / update_func_for_func_proxy (the wrapped '
+              'function enters or leaves its key, the key disappears iff its list became empty, (un)registration iff '
+              'needed, an updated function takes the OLD one\'s place in the firing order) and the responder life '
+              'cycle (one_shot: the installed function - executed symbolically - frees the responder BEFORE calling '
+              'the original with the same values; func setter, enable, disable, free). Pattern matching itself is '
               'compared with an independent '
               'OSC 1.0 matcher for ALL pattern/address pairs up to length 4/4 (exhaustive small scope); '
               'dispatch and registries are checked on all histories of length <= 4 against a reference '
               'model; the receive entry point is fuzzed under a watchdog.'),
-  level_note=('re is an external engine (pattern translation and matching: bounded), registries are dictionaries '
-              'of lists (add/remove/enable histories: bounded). In the filter contracts equality of dynamic values is '
+  level_note=('re is an external engine (pattern translation and matching: bounded); in the registry contracts the '
+              'dictionaries of lists are ghost objects with one key per proxy (multi-step add/remove/enable histories: '
+              'bounded). In the filter contracts equality of dynamic values is '
               'equality of the abstract values. Decoder leniencies inherited from python-osc are recorded as known '
               'findings.'))
 
@@ -385,8 +393,10 @@ P('C19', claimed=True, level='other',
               'None, then per segment exactly target level i+1, duration i, shape number and curvature of '
               'curves[i mod len(curves)], in this order; loop invariant over the appended values, shape/curvature '
               'as pure uninterpreted functions so that hoisting or caching them is not an alarm); client-side '
-              'evaluation Env._env_at on the linear/step/hold shapes (breakpoints, betweenness, hold after the '
-              'end); the wrap law of utils.wrap_extend used for times. Bounded, against an independent Env '
+              'evaluation Env._env_at: the value comes from THE segment whose time span [sum of the first p durations, '
+              '+ duration p) contains the time (ghost cumulative-time function, loop invariant) - between its two '
+              'breakpoint levels on the linear/step/hold shapes, the breakpoint level at a breakpoint - and the last '
+              'level is held only at or after the last breakpoint; the wrap law of utils.wrap_extend used for times. Bounded, against an independent Env '
               'reference: the eleven constructors, all shapes incl. the transcendental ones on dense time grids, '
               'per-channel levels/times/curves, offsets, and the EnvGen inputs in definition bytes.'),
   level_note=('In the _envgen_format contract the conversions by ugen_param are opaque (levels/times/curves as '
